@@ -692,7 +692,15 @@ class AsyncChannel(BaseChannel):
                 if channel_response and hidden_input is not True:
                     buf += await self._read_until_input(channel_input=bytes_channel_input)
                 self.send_return()
-                buf += await self._read_until_explicit_prompt(prompts=prompts)
+                event_buf = await self._read_until_explicit_prompt(prompts=prompts)
+                buf += event_buf
+
+                if self._interaction_complete(
+                    buf=event_buf,
+                    channel_response=channel_response,
+                    interaction_complete_patterns=interaction_complete_patterns,
+                ):
+                    break
 
         processed_buf += self._process_output(
             buf=buf,
